@@ -295,6 +295,7 @@ class C06(Prop):
 
     def __init__(self):
         self.skipped_float_boundary = 0
+        self.em_min_voters = 1                          # replaced by the extracted fact in `extract`
 
     @property
     def assumptions(self):
@@ -312,6 +313,8 @@ class C06(Prop):
     def extract(self, ctx):
         facts = {}
         consts = quorum_consts.run(REPO, LEAN, write_if_changed, self.m, facts)
+        if isinstance(facts.get("emergencyMinVoters"), int):
+            self.em_min_voters = facts["emergencyMinVoters"]
         # decision tables obtained by evaluating the real code through its public API (nothing is parsed)
         tables = quorum_tables.run(REPO, LEAN, write_if_changed, self.m, facts)
         return [consts, tables]
@@ -334,8 +337,9 @@ class C06(Prop):
                 st = objs.get(cur, ("majority", None, 1, False))
             elif t[0] == "cfg" and len(t) == 4:
                 cu = None if t[2] == "none" else Fraction(t[2])
-                if t[1] == "emergency":
-                    st = ("threshold", Fraction(3, 10) if cu is None else cu, 1, "default" if cu is None else "custom")
+                if t[1] == "emergency":           # min_voters: what EmergencyQuorum's constructor configures (extracted)
+                    st = ("threshold", Fraction(3, 10) if cu is None else cu, self.em_min_voters,
+                          "default" if cu is None else "custom")
                 elif t[1] in STRATS:
                     st = (t[1], cu, int(t[3]), False)
             elif t[0] == "setstrat" and len(t) == 3 and t[1] in STRATS and st:
